@@ -32,9 +32,13 @@ def judge(r, baseline, ctx):
     v = []
     if r.timed_out:
         live = (r.rusage or {}).get("live_children", [])
+        quiescent = (r.rusage or {}).get("quiescent", False)
         dump = b"goroutine " in r.err
-        if not live and dump:
-            v.append(("hang/deadlock-witness(no live child, goroutines blocked)", dict(ctx, dump=r.err[-3000:])))
+        if dump and (not live or quiescent):
+            # every goroutine is blocked and either no child exists any more, or the whole process tree is asleep
+            # without consuming CPU or producing output during the observation window
+            v.append(("hang/deadlock-witness(process tree quiescent, goroutines blocked)",
+                      dict(ctx, process_tree=(r.rusage or {}).get("process_tree"), dump=r.err[-3000:])))
         else:
             v.append(("INCONCLUSIVE", "watchdog fired without a deadlock witness: live children %r" % live))
         return v
@@ -135,6 +139,15 @@ def git_fault_campaign(chk, b, rng, tier, scratch):
     plan_stats = {}
     for tname, gitdir, argv in targets:
         r0, evs = record_pass(sz, shimdir, gitdir, argv, d)
+        if r0.timed_out:
+            # the fault-free run itself does not terminate (e.g. feeder and consumer waiting for each other once the
+            # root list / listing exceeds the pipe buffers)
+            for clause, det in judge(r0, None, {"argv": argv, "target": tname, "fault": "none"}):
+                if clause == "INCONCLUSIVE":
+                    chk.inconc(det)
+                else:
+                    chk.violation("C10/fault-free-run/%s/%s" % (clause, tname), det)
+            continue
         if r0.rc != 0 or not evs:
             chk.inconc("record pass failed for %s: rc=%s %r" % (tname, r0.rc, r0.err[:200]))
             continue
